@@ -60,7 +60,10 @@ theorem popWrap_tr (m : M N) (i : Nat) :
     · simp only [↓reduceIte]
       cases inp with
       | nil => simp only [popRaw_tr, Res.mapOk]
-      | cons l rest => simp only [setStack_tr, popRaw_tr, Res.mapOk]
+      | cons l rest =>
+        cases l with
+        | nil => simp only [Res.mapOk]
+        | cons ch cs => simp only [setStack_tr, popRaw_tr, Res.mapOk]
   · simp only [h0, ↓reduceIte]
     by_cases h1 : i = 1
     · simp only [h1, ↓reduceIte, Res.mapOk]
